@@ -12,7 +12,9 @@ EXTRA = {"C15-b": [], "C16-b": ["C07", "C01"], "C17-b": ["C06"], "C18-b": [], "C
          "C01-b": ["C16", "C03"], "C02-b": ["C12"], "C03-b": ["C01", "C13"], "C04-b": ["C11"], "C05-b": ["C19"], "C06-b": [], "C07-b": ["C13"],
          "C03-a": ["C13"], "C13-a": ["C07"], "C07-a": ["C13"], "C02-a": ["C09"], "C05-a": ["C19"], "C12-a": ["C17"], "C17-a": ["C12"],
          "C16-a": ["C01"], "C09-a": ["C01", "C03"], "C06-a": ["C19"], "C14-a": ["C01"], "C01-a": ["C03", "C09"], "C10-a": ["C04", "C09"],
-         "C11-a": ["C04", "C02"]}
+         "C11-a": ["C04", "C02"],
+         "C01-d": ["C02", "C07"], "C02-d": ["C06"], "C03-d": ["C16", "C01"], "C04-d": ["C11"], "C05-d": ["C19"], "C06-d": ["C19"],
+         "C09-d": ["C05"], "C11-d": ["C01"], "C12-d": ["C02"], "C13-d": ["C07", "C04"]}
 
 
 def main():
